@@ -152,6 +152,23 @@ Theorem resume_catches_up_observations c s0 hist k i :
     (finalized c u <> finalized c (run c s0 (firstn (S i) hist)) -> finalized c r = finalized c u).
 Proof. exact (ProofsCatchUp.resume_catches_up_observations c s0 hist k i). Qed.
 
+(* transfer to resumed nodes: every statement about the uninterrupted node's store that does not read the finalized record
+   (stored set, best pointer, quality records = vote tallies, block data — what C04's tallies are made of) holds of the
+   resumed node's store; every statement at all once the uninterrupted node's finalized block has moved *)
+Theorem resumed_node_inherits c s0 hist k i (P : store -> Prop) :
+  wf_cfg2 c -> Inv2 c s0 -> InvQ c s0 -> wf_hist c s0 hist -> no_bft_reject c s0 hist = true ->
+  cut_in_import c s0 hist k i ->
+  (forall a b, eqv_nf a b -> P b -> P a) -> P (run c s0 hist) ->
+  exists r, resume c true (crash c s0 hist k) (skipn i hist) = Some r /\ P r.
+Proof. exact (ProofsCatchUp.resumed_node_inherits c s0 hist k i P). Qed.
+Theorem resumed_node_inherits_all c s0 hist k i (P : store -> Prop) :
+  wf_cfg2 c -> Inv2 c s0 -> InvQ c s0 -> wf_hist c s0 hist -> no_bft_reject c s0 hist = true ->
+  cut_in_import c s0 hist k i ->
+  finalized c (run c s0 hist) <> finalized c (run c s0 (firstn (S i) hist)) ->
+  (forall a b, eqv a b -> P b -> P a) -> P (run c s0 hist) ->
+  exists r, resume c true (crash c s0 hist k) (skipn i hist) = Some r /\ P r.
+Proof. exact (ProofsCatchUp.resumed_node_inherits_all c s0 hist k i P). Qed.
+
 (* one import on a lagging and an up-to-date store: the relation is kept, and the import that moves the up-to-date node's
    finalized block makes the stores equivalent (the step the theorem above iterates) *)
 Theorem lagging_import_step c r u b : wf_cfg2 c -> Inv2 c u -> InvQ c u -> wf_blk u b -> Lag c r u ->
@@ -357,6 +374,8 @@ Print Assumptions genesis_store_inv2.
 Print Assumptions resume_hypotheses_met.
 Print Assumptions resume_catches_up.
 Print Assumptions resume_catches_up_observations.
+Print Assumptions resumed_node_inherits.
+Print Assumptions resumed_node_inherits_all.
 Print Assumptions lagging_import_step.
 Print Assumptions find_checkpoint_is_least_epoch.
 Print Assumptions run_keeps_invq.
